@@ -1,4 +1,5 @@
 """C16 - valid JVM descriptors deobfuscate to the right Java types, invalid ones to none (TAB + FC + TWIN + CEN)."""
+import re
 import facts as F
 import sym as S
 import fc
@@ -60,8 +61,68 @@ def check_prim_table(fx, rep, rule):
     return p
 
 
-def check_type_renderer(fx, rep, rule, name, remap_path, prim_path):
-    p = A.one(rep, rule, "java::" + name, A.func(fx, "java", name))
+def shared_renderer(fx, entry_name, remap_path, prim_path):
+    """the two renderers merged into one private function that gets the class lookup handed in (a closure, or a type parameter
+    bound by a crate trait): found by role (the function of java.rs with a loop that consults the primitive table), and judged
+    *as called from this implementation's entry point* - with the lookup argument that entry point passes.
+    Returns (renderer path, argument values, type substitution, receiver term) or None."""
+    cands = [q for q, b_ in fx.bodies.items() if q.startswith("proguard::java::") and b_["kind"] == "Fn" and S.has_loop(b_)
+             and (b_.get("output") or "") == "std::option::Option<std::string::String>"
+             and any(n_.get("k") == "Call" and "fn" in n_ and fx.by_dp.get(n_["fn"].get("dp")) == prim_path for n_ in F.walk(b_["body"]))]
+    entry = A.func(fx, "java", entry_name)
+    if len(cands) != 1 or len(entry) != 1:
+        return None
+    rp_, eb = cands[0], fx.bodies[entry[0]]
+    rb = fx.bodies[rp_]
+    if len(rb["params"]) != 2 or len(eb["params"]) != 2:
+        return None
+    splitter = A.func(fx, "java", "parse_obfuscated_bytecode_signature")
+    sy0 = S.Sym(fx, opaque=lambda q: q in (rp_, remap_path, prim_path) or q in splitter, inline_mut=True)
+    try:
+        res0 = sy0.eval_body(eb)
+    except S.Undecidable:
+        return None
+    args1 = set()
+
+    def g(t):
+        if t[0] in ("call", "mcall") and t[1] == S.short_path(rp_) and len(t[2]) == 2:
+            args1.add(t[2][1])
+        return None
+    for st_, (k_, v_) in res0:
+        fc.rewrite(v_, g)
+        for a_, p_ in st_.conds:
+            fc.rewrite(a_, g)
+    if len(args1) != 1:
+        return None
+    arg1 = list(args1)[0]
+    ename = eb["params"][1]["pat"]["name"] if eb["params"][1].get("pat") else None
+    recv = ("in", ename)
+    tsub = {}
+    if arg1 == recv:
+        # handed on as it is: the renderer is generic over the implementation (`R: ClassRemapper`)
+        gens = [g_ for g_ in (rb.get("generics") or []) if not g_.startswith("'")]
+        pty, aty = rb["params"][1].get("ty") or "", eb["params"][1].get("ty") or ""
+        m_ = re.match(r"^&(%s)$" % "|".join(re.escape(g_) for g_ in gens), pty) if gens else None
+        if not m_ or not aty.startswith("&"):
+            return None
+        tsub = {m_.group(1): aty[1:]}
+    elif arg1[0] != "closure":
+        return None
+    names = [prm["pat"]["name"] for prm in rb["params"] if prm.get("pat")]
+    return rp_, [("in", names[0]), arg1], tsub, recv
+
+
+def check_type_renderer(fx, rep, rule, name, remap_path, prim_path, entry_name=None):
+    cand = A.func(fx, "java", name)
+    shared = None
+    both = all(len(A.func(fx, "java", n_)) == 1 for n_ in ("byte_code_type_to_java_type", "byte_code_type_to_java_type_cache"))
+    if not both and entry_name:
+        # (one of the two names may survive as the name of the merged, generic function)
+        shared = shared_renderer(fx, entry_name, remap_path, prim_path)
+    if shared:
+        p = shared[0]
+    else:
+        p = A.one(rep, rule, "java::" + name, cand)
     if not p:
         return
     rep.fn(p)
@@ -69,7 +130,11 @@ def check_type_renderer(fx, rep, rule, name, remap_path, prim_path):
     # (a shared generic helper taking the class lookup as a closure is inlined, loop included)
     sy = S.Sym(fx, opaque=lambda q: q in (remap_path, prim_path), inline_mut=True)
     try:
-        res = sy.eval_body(b)
+        if shared:
+            sy.tsubst.append(shared[2])
+            res = sy.eval_body(b, shared[1], S.St())
+        else:
+            res = sy.eval_body(b)
     except S.Undecidable as e:
         rep.undecidable(rule, "%s/%s/shape" % (rule, name), loc=F.loc(e.node) if isinstance(e.node, dict) else "", construct=e.msg)
         return
@@ -79,7 +144,7 @@ def check_type_renderer(fx, rep, rule, name, remap_path, prim_path):
     L = sy.loops[sy.loop_order[0]]
     idx = L["index"]
     names = [prm["pat"]["name"] for prm in b["params"] if prm.get("pat")]
-    recv = ("in", names[1])
+    recv = shared[3] if shared else ("in", names[1])
     # role of the suffix accumulator: the String place receiving push_str
     sufs = {e[2][0][1] for st, o in L["paths"] for e in st.effects if e[0] == "call" and e[1].endswith("String::push_str") and e[2][0][0] == "place"}
     if len(sufs) != 1:
@@ -924,10 +989,19 @@ def check_entry_semantic(fx, rep, rule, impl):
     pe = A.method(fx, T, "deobfuscate_signature")
     splitter = A.func(fx, "java", "parse_obfuscated_bytecode_signature")
     conv = A.func(fx, "java", conv_name)
+    shared = None
+    if not all(len(A.func(fx, "java", n_)) == 1 for n_ in ("byte_code_type_to_java_type", "byte_code_type_to_java_type_cache")):
+        rmc, prim_ = A.method(fx, T, "remap_class"), A.func(fx, "java", "java_base_types")
+        if len(rmc) == 1 and len(prim_) == 1:
+            shared = shared_renderer(fx, "deobfuscate_bytecode_signature" + ("" if impl == "mapper" else "_cache"), rmc[0], prim_[0])
+            if shared:
+                conv = [shared[0]]
     if len(pe) != 1 or len(splitter) != 1 or len(conv) != 1:
         return False
     b = fx.bodies[pe[0]]
     opq = {splitter[0], conv[0]}
+    if shared:
+        opq.add(rmc[0])
     sy = S.Sym(fx, opaque=lambda q: q in opq, inline_mut=True, inline_depth=6)
     try:
         res = sy.eval_body(b)
@@ -939,6 +1013,30 @@ def check_entry_semantic(fx, rep, rule, impl):
         return False
     recv = ("in", "self")
     SPL, CV = S.short_path(splitter[0]), S.short_path(conv[0])
+    if shared:
+        # the lookup argument every call of the shared renderer gets on this path: the receiver itself, or a closure that is
+        # exactly `|class| self.remap_class(class)`
+        a1 = set()
+
+        def g_(t):
+            if t[0] in ("call", "mcall") and t[1] == CV and len(t[2]) == 2:
+                a1.add(t[2][1])
+            return None
+        for st_, (k_, v_) in res:
+            fc.rewrite(v_, g_)
+            for a_, p_ in st_.conds:
+                fc.rewrite(a_, g_)
+        if len(a1) != 1:
+            return False
+        arg1 = list(a1)[0]
+        if arg1 != recv:
+            if arg1[0] != "closure":
+                return False
+            import models as M0
+            ct = M0.closure_term(sy, arg1, 1, S.St(), {"sp": "?"})
+            if ct != call(S.short_path(rmc[0]), recv, ("bound", 0)):
+                return False
+        recv = arg1
     ps = call(SPL, sig)
     tup = mk_payload(ps, "Some", "0")
     types, ret = mk_field(tup, "0"), mk_field(tup, "1")
@@ -998,8 +1096,8 @@ def check_both_impls(fx, rep, rule):
     rm = A.method(fx, A.MAPPER, "remap_class")
     rc = A.method(fx, A.CACHE, "remap_class")
     if prim and len(rm) == 1 and len(rc) == 1:
-        check_type_renderer(fx, rep, rule, "byte_code_type_to_java_type", rm[0], prim)
-        check_type_renderer(fx, rep, rule, "byte_code_type_to_java_type_cache", rc[0], prim)
+        check_type_renderer(fx, rep, rule, "byte_code_type_to_java_type", rm[0], prim, "deobfuscate_bytecode_signature")
+        check_type_renderer(fx, rep, rule, "byte_code_type_to_java_type_cache", rc[0], prim, "deobfuscate_bytecode_signature_cache")
     e2e = {impl: check_entry_semantic(fx, rep, rule, impl) for impl in ("mapper", "cache")}
     if not e2e["mapper"]:
         check_assembly(fx, rep, rule, "deobfuscate_bytecode_signature", "byte_code_type_to_java_type")
@@ -1016,8 +1114,8 @@ def run(ctx, rep):
     rm = A.method(fx, A.MAPPER, "remap_class")
     rc = A.method(fx, A.CACHE, "remap_class")
     if prim and len(rm) == 1 and len(rc) == 1:
-        check_type_renderer(fx, rep, "C16.2", "byte_code_type_to_java_type", rm[0], prim)
-        check_type_renderer(fx, rep, "C16.2", "byte_code_type_to_java_type_cache", rc[0], prim)
+        check_type_renderer(fx, rep, "C16.2", "byte_code_type_to_java_type", rm[0], prim, "deobfuscate_bytecode_signature")
+        check_type_renderer(fx, rep, "C16.2", "byte_code_type_to_java_type_cache", rc[0], prim, "deobfuscate_bytecode_signature_cache")
     check_splitter_guards(fx, rep, "C16.3")
     check_byte_offsets(fx, rep, "C16.3")
     check_tokenizer(fx, rep, "C16.6")
